@@ -153,4 +153,4 @@ def classify_multi(f, case, world, exp):
     return KF.attribute(
         f, lambda caching: (_run(case, world, caching, times=n)[n - 1] if n > 1 else _run(case, world, caching)), exp,
         mentioned_not_selected=bool(multi.vars_mentioned_not_selected(case)),
-        compare=lambda got, e: multi.compare(case, got, e))
+        compare=lambda got, e: multi.compare(case, got, e), nvars=len(case["kinds"]))
